@@ -276,7 +276,9 @@ impl LogStore for FileLogStore {
             inner.file.flush()?;
         }
 
-        self.last_index.store(max_index, Ordering::SeqCst);
+        // A batch may rewrite lower indexes while higher ones stay stored: never move backwards here
+        // (truncate / replace_range / reset are the operations that lower the last index).
+        self.last_index.fetch_max(max_index, Ordering::SeqCst);
         Ok(())
     }
 
